@@ -2,6 +2,7 @@ import LoraVerif.Props.C04
 import LoraVerif.Props.TieA.MacTopC
 import LoraVerif.Props.TieA.MacTopTx
 import LoraVerif.Props.TieA.MacTopGen
+import LoraVerif.Props.TieA.JoinWalk
 /-!
 # C04 — the module `./check C04` builds: the property theorems (`Props/C04.lean`) together with the tie-A theorems
 that the regenerated dispatch of the MAC's state machine (`Gen/MacTopFn.lean`) is the model's
